@@ -107,6 +107,7 @@ def blocksOK (env : Env) : List (SItem α) → List (SBlock α) → Prop
   | before, .step st :: r => itemsOK env before st ∧ st ≠ [] ∧ blocksOK env (before ++ st) r
   | before, .sect _ :: r => blocksOK env before r
   | before, .entry k v :: r => EntryPlain env k v ∧ blocksOK env before r
+  | before, .para _ :: r => blocksOK env before r
 
 theorem rtsr_ingrsOf_snoc (before : List (SItem α)) (it : SItem α) :
     ingrsOf (before ++ [it]) = ingrsOf before ++ (match it with | .ingredient i => [i] | _ => []) := by
@@ -247,6 +248,54 @@ theorem rtsr_entryEffect_base (env : Env) (k v : Text) (base : Col α) (hb : Bas
   unfold entryEffect BaseOK
   cases StdKey.ofStr (String.ofList (k.trimmed env.cs)) <;> exact hb
 
+/-! ### text paragraphs -/
+
+theorem rtsr_para_texts (env : Env) (input : Str) (base : Col α) (rest : List (Ev α)) (before : List (SItem α))
+    (content : List Content) (n : Nat) :
+    ∀ (ts : List Text) (buf : Str),
+      parseEventsLoop env input (ts.map Ev.text ++ rest) (stOfR env base before content n (some (.text buf))) =
+        parseEventsLoop env input rest (stOfR env base before content n (some (.text (buf ++ ts.flatMap (·.text))))) := by
+  intro ts
+  induction ts with
+  | nil => intro buf; simp
+  | cons t r ih =>
+    intro buf
+    have hstep : (processEvent env input (.text t) (stOfR env base before content n (some (.text buf)))).2 =
+        stOfR env base before content n (some (.text (buf ++ t.text))) := by
+      have e : processEvent env input (.text t) (stOfR env base before content n (some (.text buf))) =
+          inStepText env t (stOfR env base before content n (some (.text buf))) := rfl
+      rw [e]
+      unfold inStepText
+      simp [bind, StateT.bind, get, getThe, MonadStateOf.get, StateT.get, pure, StateT.pure, stOfR, modify, modifyGet,
+        MonadStateOf.modifyGet, StateT.modifyGet]
+    rw [List.map_cons, List.cons_append, parseEventsLoop_cons_nonerror env input _ _ _ (by rintro ⟨d, h⟩; cases h), hstep,
+      ih]
+    simp [List.append_assoc]
+
+/-- one text paragraph: its joined text is appended to the current section (nothing if it is empty); the
+    step counter does not move -/
+theorem rtsr_para (env : Env) (input : Str) (base : Col α) (hb : BaseOK base) (rest : List (Ev α)) (ts : List Text)
+    (before : List (SItem α)) (content : List Content) (n : Nat) :
+    parseEventsLoop env input (([Ev.start .text] ++ ts.map Ev.text ++ [Ev.stop .text]) ++ rest)
+        (stOfR env base before content n none) =
+      parseEventsLoop env input rest (stOfR env base before (content ++ paraContent ts) n none) := by
+  have e : ([Ev.start .text] ++ ts.map Ev.text ++ [Ev.stop .text]) ++ rest =
+      Ev.start .text :: (ts.map Ev.text ++ (Ev.stop .text :: rest)) := by simp
+  have hstart : (processEvent env input (.start .text) (stOfR env base before content n none)).2 =
+      stOfR env base before content n (some (.text [])) := by
+    simp [processEvent, modify, modifyGet, MonadStateOf.modifyGet, StateT.modifyGet, stOfR, pure, StateT.pure, hb.1]
+  have hstop : ∀ buf, (processEvent env input (.stop .text) (stOfR env base before content n (some (.text buf)))).2 =
+      stOfR env base before (content ++ (if buf.isEmpty then [] else [.text buf])) n none := by
+    intro buf
+    by_cases hbuf : buf.isEmpty = true <;>
+      simp [processEvent, endBlock, endBlockContent, pushContent, Content.isStep, Content.isEmptyContent, hbuf, bind,
+        StateT.bind, get, getThe, MonadStateOf.get, StateT.get, pure, StateT.pure, modify, modifyGet,
+        MonadStateOf.modifyGet, StateT.modifyGet, stOfR, hb.1]
+  rw [e, parseEventsLoop_cons_nonerror env input _ _ _ (by rintro ⟨d, h⟩; cases h), hstart,
+    rtsr_para_texts env input base _ before content n ts [],
+    parseEventsLoop_cons_nonerror env input _ _ _ (by rintro ⟨d, h⟩; cases h), hstop]
+  simp [paraContent]
+
 /-! ### the intended result -/
 
 structure DocResultR (env : Env) (base : Col α) (before : List (SItem α)) (content : List Content) (n : Nat)
@@ -332,6 +381,14 @@ theorem rtsr_loop_doc (env : Env) (input : Str) :
         · rw [a5, e3]; rfl
         · rw [a6, e4]; simp [docEntries, docSpans]
         · rw [a7, e4, e5]; simp [docEntries, docSpans]
+
+    | para ts =>
+      have hr : blocksOK env before r := hok
+      obtain ⟨c, h1, h2⟩ := ih before hr base hb (content ++ paraContent ts) n
+      refine ⟨c, ?_, ?_⟩
+      · rw [List.flatMap_cons, SBlock.events, rtsr_para env input base hb _ ts, h1]
+      · obtain ⟨a1, a2, a3, a4, a5, a6, a7, a8, a9⟩ := h2
+        exact ⟨by rw [a1]; rfl, a2, a3, a4, a5, a6, a7, a8, a9⟩
 
 /-- **analysis layer, documents with sections and metadata** -/
 theorem rtsr_parseEvents_doc (env : Env) (input : Str) (blocks : List (SBlock α)) (hok : blocksOK env [] blocks) :
